@@ -83,3 +83,36 @@ func c02Or2[V univers.Version[V], VR univers.VersionRange[V]](e univers.Ecosyste
 	vv.Assume(er == nil)
 	vv.Assert(r.Contains(vp) == orb(opSem(op1, vp.Compare(v1)), opSem(op2, vp.Compare(v2))), "C02: OR of comparators is not the union")
 }
+
+// c02Three: three comparators; sep1 / sep2 are AND or OR separators. An OR separator binds weaker
+// than an AND separator (a range is an OR of AND groups), so "A and B or C" is (A ∧ B) ∨ C and
+// "A or B and C" is A ∨ (B ∧ C). isOr1 / isOr2 say which kind each separator is.
+func c02Three[V univers.Version[V], VR univers.VersionRange[V]](e univers.Ecosystem[V, VR], op1, b1, sep1, op2, b2, sep2, op3, b3, probe string, isOr1, isOr2 bool) {
+	v1, e1 := e.NewVersion(b1)
+	vv.Assume(e1 == nil)
+	v2, e2 := e.NewVersion(b2)
+	vv.Assume(e2 == nil)
+	v3, e3 := e.NewVersion(b3)
+	vv.Assume(e3 == nil)
+	vp, ep := e.NewVersion(probe)
+	vv.Assume(ep == nil)
+	vv.Reached()
+	vv.Assume(!vv.Known("KF-C02-x-in-bound", orb(orb(c02NpmX(e.Name(), b1), c02NpmX(e.Name(), b2)), c02NpmX(e.Name(), b3))))
+	r, er := e.NewVersionRange(op1 + b1 + sep1 + op2 + b2 + sep2 + op3 + b3)
+	vv.Assert(er == nil, "C02: a list of three comparators is rejected")
+	vv.Assume(er == nil)
+	x, y, z := opSem(op1, vp.Compare(v1)), opSem(op2, vp.Compare(v2)), opSem(op3, vp.Compare(v3))
+	vv.Assert(r.Contains(vp) == three(x, y, z, isOr1, isOr2), "C02: a list of three comparators is not the intersection / union of its parts")
+}
+
+func three(x, y, z, or1, or2 bool) bool {
+	switch {
+	case or1 && or2:
+		return x || y || z
+	case or1:
+		return x || (y && z)
+	case or2:
+		return (x && y) || z
+	}
+	return x && y && z
+}
